@@ -178,6 +178,9 @@ CHECKS["C11"]["groups"][-1]["scenarios"].append(m("id_reuse", "an actor ends by 
 CHECKS["C15"]["groups"][-1]["scenarios"].append(m("deadlock_reply_window", "the callee answers and goes on to a message queued behind the ask whose handler asks the asker back (before or after the asker collected the reply); a hook with two asks in flight at once (join!) whose later-registered ask is answered first, then a reverse ask; all schedules", "every deadlock panic is justified by a chain of UNANSWERED in-flight asks at that moment (oracle computed from the trace: ask registered at first poll, answered when the target's handler returned or the target ended); known finding KF-C15-1 is recognised by its history and reported as such"))
 CHECKS["C15"]["bounds"] = "2-3 actors, <= 3 asks in flight"
 CHECKS["C15"]["outside"] = "more than 3 actors; asks issued from spawned sub-tasks of a handler"
+CHECKS["C08"]["groups"][-1]["scenarios"].append(m("slow_start", "messages (and optionally a stop) arriving while on_start is suspended", "the idle hook is not polled at start-up while a message waits"))
+CHECKS["C02"]["groups"][-1]["scenarios"].append(m("blocking", "the C17 scenario: blocking_tell / blocking_ask from a plain thread and from a spawn_blocking context (runtime handle present), full mailbox, slow actor, followed by stop()", "a blocking send that returned is in the mailbox: later sends and the stop marker cannot overtake it"))
+CHECKS["C10"]["groups"][-1]["scenarios"].append(m("blocking", "the blocking variants given a timeout, including Duration::MAX and handlers with scripted virtual durations", "return by the deadline, Timeout iff the deadline passed, never a panic in the caller"))
 CHECKS["C08"]["groups"][-1]["scenarios"].append(m("long_idle", "on_run returns Ok(true) 140 (thorough 260) times in a row without suspending, then Ok(false); with and without messages", "every scripted invocation happens (no threshold after which idle work silently stops)"))
 CHECKS["C09"]["groups"][-1]["scenarios"].append(m("slow_start", "on_start suspended twice while two clients attempt capacity+2 sends, capacity 1-2, then normal service, optionally stop()", "accepted-but-not-taken-up operations <= capacity also during start-up (a message leaves the count when its handler begins)"))
 CHECKS["C04"]["groups"][-1]["scenarios"].append(m("slow_start", "traffic arriving while on_start is suspended", "nothing is handled before on_start completed"))
